@@ -59,6 +59,7 @@ type Path struct {
 
 	steps      int
 	maxSteps   int
+	maxDepth   int
 	unwind     int
 	pending    []workItem
 	violations []Violation
